@@ -255,7 +255,8 @@ def feed_guarded(irc, m):
     old = signal.signal(signal.SIGALRM, boom)
     # once several feeds have hung (never on a correct tree) the verdict is settled: do not spend the full
     # limit on each further one
-    signal.setitimer(signal.ITIMER_REAL, FEED_LIMIT_S if HANGS[0] < 3 else 0.5)
+    # (repeating: library code with a bare `except:` around the interrupted spot may swallow the first one)
+    signal.setitimer(signal.ITIMER_REAL, FEED_LIMIT_S if HANGS[0] < 3 else 0.5, 0.05)
     try:
         irc.feedMsg(m)
         return True
@@ -1432,7 +1433,8 @@ def script_conformant(r, cfg, noise=0.0, limit=120):
         for line in srv.step():
             if r.random() < 0.08:
                 o = run.msg('PING :vt%d' % steps)
-                srv.see([m for m in o.msgs])
+                if o is not None:
+                    srv.see([m for m in o.msgs])
             if noise and r.random() < noise:
                 o = run.msg(gen_adv_line(r, run.last()))
                 if o is not None:
@@ -1440,6 +1442,9 @@ def script_conformant(r, cfg, noise=0.0, limit=120):
                     aborted = aborted or bool(o.calls)
             o = run.msg(line)
             steps += 1
+            if getattr(run, 'hung', None):
+                aborted = True          # judged by the watchdog predicate, not as a stall
+                break
             if o is None:
                 continue
             srv.see(o.msgs)
